@@ -18,7 +18,7 @@ REQUIRED_MONITORS = ["action@SSI dialog(enumerated)", "action@SSI dialog(random)
                      "hand-over@SSIcov.mpe_from_plot", "hand-over@pLSCF.mpe_from_plot", "hand-over@FDD.mpe_from_plot"]
 ALL_STATES = ["picks in descending frequency order", "same pole picked twice", "deselect-one with >= 2 selected", "deselect-nearest with >= 2 selected", "click without modifier ignored",
               "click outside the axes", "pick on a column without poles", "deselect on empty selection", "modifier released before click"]
-REQUIRED_STATES = ["picks in descending frequency order", "deselect-one with >= 2 selected", "deselect-nearest with >= 2 selected", "click without modifier ignored",
+REQUIRED_STATES = ["picks outside the window the dialog opened with (after panning)", "picks in descending frequency order", "deselect-one with >= 2 selected", "deselect-nearest with >= 2 selected", "click without modifier ignored",
                    "click outside the axes", "deselect on empty selection", "modifier released before click", "dialog opened with freqlim",
                    "deselect-nearest beside the midpoint of two selected frequencies", "same pole picked twice",
                    "hand-over of picks at two alternating model orders", "pick at the lower edge of the axes", "hand-over with two retained poles closer than the extraction tolerance"]
@@ -149,10 +149,13 @@ class Session:
             self.ctx.state("modifier released before click")
         self.check()
 
-    def click(self, button, xd, yd, outside=False):
+    def click(self, button, xd, yd, outside=False, pan=None):
         from matplotlib.backend_bases import MouseEvent
         ax = self.dlg.ax2
         ax.get_xlim(), ax.get_ylim()  # un-stale the view limits after the handler re-plotted (a GUI would have redrawn)
+        if pan is not None:
+            ax.set_xlim(*pan)  # the user drags / zooms out with the toolbar: what is clicked then lies outside the window the dialog opened with
+            ax.get_xlim()
         if outside:
             px, py = 2, 2
         else:
@@ -413,10 +416,28 @@ def run_random(ctx, case):
                 break
 
     flim = None
-    if rng.random() < 0.4:
+    actions = rand_actions
+    if case["k"] % 5 == 2 and len(fn) >= 3:
+        # the dialog opened on a narrow window around the middle mode, the user pans to the others and picks / deselects there
+        fs_ = sorted(float(v) for v in fn)
+        flim = (0.5 * (fs_[0] + fs_[1]), 0.5 * (fs_[-2] + fs_[-1]))
+
+        def actions(s):  # noqa: F811
+            s.key(True)
+            yy = (lambda: float(rng.uniform(-40, -1))) if plot == "FDD" else (lambda: float(rng.integers(max(2, ncol - 7), ncol) + rng.uniform(-0.3, 0.3)))
+            s.click(1, fs_[1] + float(rng.uniform(-0.3, 0.3)), yy())
+            for f_out in (fs_[0], fs_[-1]):
+                if s.ok:
+                    s.click(1, f_out + float(rng.uniform(-0.3, 0.3)), yy(), pan=(0.0, 50.0))
+            if s.ok and rng.random() < 0.7:
+                s.click(2, fs_[0] - 0.5, -10.0 if plot == "FDD" else 5.0, pan=(0.0, 50.0))
+            if s.ok:
+                rand_actions(s)
+        ctx.state("picks outside the window the dialog opened with (after panning)")
+    elif rng.random() < 0.4:
         flim = (float(rng.uniform(1.0, 3.0)), float(rng.uniform(40.0, 49.0)))  # a window that starts above the first spectral line
         ctx.state("dialog opened with freqlim")
-    dlg, s = drive(ctx, algo, plot, tag, rand_actions, freqlim=flim)
+    dlg, s = drive(ctx, algo, plot, tag, actions, freqlim=flim)
     check_result(ctx, dlg, s, plot)
     if s is not None and s.nontrivial:
         ctx.nontrivial((plot, str(s.hist)))
